@@ -1022,9 +1022,16 @@ func (w *W) sprintf(s *State, fv Value, argsl SliceV) Value {
 			continue
 		}
 		// skip flags/width
+		sawPlus := false
 		for (verb == '+' || verb == '-' || verb == '#' || verb == '0' || verb == '.' || (verb >= '1' && verb <= '9')) && i+1 < len(format) {
+			if verb == '+' {
+				sawPlus = true
+			}
 			i++
 			verb = format[i]
+		}
+		if sawPlus && verb == 'v' {
+			verb = 'V'
 		}
 		if ai >= len(args) {
 			out = strConcat(out, StrV{S: "%!" + string(verb) + "(MISSING)"})
@@ -1037,7 +1044,18 @@ func (w *W) sprintf(s *State, fv Value, argsl SliceV) Value {
 	return out
 }
 
+func pv(plus bool) byte {
+	if plus {
+		return 'V'
+	}
+	return 'v'
+}
+
 func (w *W) fmtArg(s *State, a Value, verb byte) StrV {
+	plus := verb == 'V' // internal spelling of %+v
+	if plus {
+		verb = 'v'
+	}
 	iv, ok := a.(IfaceV)
 	if !ok {
 		return StrV{S: "<fmt?>"}
@@ -1088,8 +1106,61 @@ func (w *W) fmtArg(s *State, a Value, verb byte) StrV {
 		}
 		return w.ufString(s, "fmtfloat", v).(StrV)
 	}
+	if r, ok := w.fmtComposite(s, iv.T, iv.V, plus); ok {
+		return r
+	}
 	w.e.noteModel("fmt.Sprintf:opaque-arg")
 	return StrV{S: "<opaque-arg>"}
+}
+
+// fmtComposite renders slices, arrays, structs and pointers-to-struct the way %v / %+v do.
+func (w *W) fmtComposite(s *State, t types.Type, v Value, plus bool) (StrV, bool) {
+	switch u := t.Underlying().(type) {
+	case *types.Slice:
+		sl, ok := v.(SliceV)
+		if !ok {
+			return StrV{}, false
+		}
+		out := StrV{S: "["}
+		if !sl.Nil && sl.Len > 0 {
+			arr := s.heap[sl.Obj].(ArrayV)
+			for i := 0; i < sl.Len; i++ {
+				if i > 0 {
+					out = strConcat(out, StrV{S: " "})
+				}
+				out = strConcat(out, w.fmtArg(s, IfaceV{T: u.Elem(), V: arr.E[sl.Off+i]}, pv(plus)))
+			}
+		}
+		return strConcat(out, StrV{S: "]"}), true
+	case *types.Struct:
+		st, ok := v.(StructV)
+		if !ok {
+			return StrV{}, false
+		}
+		out := StrV{S: "{"}
+		for i := 0; i < u.NumFields(); i++ {
+			if i > 0 {
+				out = strConcat(out, StrV{S: " "})
+			}
+			if plus {
+				out = strConcat(out, StrV{S: u.Field(i).Name() + ":"})
+			}
+			out = strConcat(out, w.fmtArg(s, IfaceV{T: u.Field(i).Type(), V: st.F[i]}, pv(plus)))
+		}
+		return strConcat(out, StrV{S: "}"}), true
+	case *types.Pointer:
+		p, ok := v.(PtrV)
+		if !ok || p.Nil {
+			return StrV{S: "<nil>"}, ok
+		}
+		if _, isStruct := u.Elem().Underlying().(*types.Struct); isStruct {
+			r, ok := w.fmtComposite(s, u.Elem(), w.load(s, p), plus)
+			if ok {
+				return strConcat(StrV{S: "&"}, r), true
+			}
+		}
+	}
+	return StrV{}, false
 }
 
 func (s *State) setLock(k string, v int) {
